@@ -48,6 +48,9 @@ type Scenario struct {
 	BothT    bool   `json:"bothTopics"` // members subscribe to a and b from the start (else b is added later by addtopic)
 	ProcMs   int    `json:"procMs"`     // how long a member "processes" a non-empty poll before polling again
 	Steps    []Step `json:"steps"`
+	// Auto (mode commits): autocommit stays on; an autocommit that was answered with a retriable code is waiting for its
+	// retry when the application commits a later position synchronously
+	Auto bool `json:"auto,omitempty"`
 }
 
 const nparts = 3
@@ -58,6 +61,16 @@ func gen(seed int64, tier, mode string) Scenario {
 	if mode == "commits" {
 		sc.Proto = []string{"range", "coop", "848"}[r.Intn(3)]
 		sc.ProcMs = 3
+		if r.Intn(4) == 0 {
+			sc.Auto = true
+			sc.Proto = []string{"range", "coop"}[r.Intn(2)]
+			sc.PollN = 5
+			sc.Steps = append(sc.Steps, Step{Op: "join", M: 1}, Step{Op: "sleep", Ms: 600}, Step{Op: "produce", N: 5}, Step{Op: "sleep", Ms: 300},
+				Step{Op: "fault", Kind: []string{"loading", "notcoord"}[r.Intn(2)]}, Step{Op: "sleep", Ms: []int{550, 700, 900}[r.Intn(3)]},
+				Step{Op: "produce", N: 5}, Step{Op: "sleep", Ms: []int{120, 300, 500}[r.Intn(3)]},
+				Step{Op: "commit", M: 1, Kind: []string{"records", "sync"}[r.Intn(2)], Off: 10}, Step{Op: "sleep", Ms: 4000})
+			return sc
+		}
 		sc.Steps = append(sc.Steps, Step{Op: "join", M: 1}, Step{Op: "produce", N: 12}, Step{Op: "sleep", Ms: 300})
 		n := 3 + r.Intn(3)
 		// every commit of the scenario carries a distinct offset; mostly increasing, sometimes rewinding (committing an
@@ -183,7 +196,11 @@ func runScenario(t *testing.T, rec *sim.Recorder, sc Scenario) {
 	synctest.Test(t, func(t *testing.T) {
 		rec.ResetSeq()
 		js, _ := json.Marshal(sc)
-		rec.Ev("reset", "mode", sc.Mode, "proto", sc.Proto, "nparts", nparts, "scenario", string(js))
+		tmode := sc.Mode
+		if sc.Auto {
+			tmode = "autocommits"
+		}
+		rec.Ev("reset", "mode", tmode, "proto", sc.Proto, "nparts", nparts, "scenario", string(js))
 		var vnet kfake.VirtualNetwork
 		chaos := sim.NewChaos()
 		c, err := kfake.NewCluster(kfake.NumBrokers(2), kfake.SeedTopics(nparts, "a", "b"), kfake.BrokerConfigs(map[string]string{"group.consumer.heartbeat.interval.ms": "1000"}), kfake.ListenFn(chaos.Listen(vnet.Listen)), kfake.Ports(9092, 9093))
@@ -305,8 +322,12 @@ func runScenario(t *testing.T, rec *sim.Recorder, sc Scenario) {
 			case "848":
 				opts = append(opts, kgo.Balancers(kgo.CooperativeStickyBalancer()), kgo.WithContext(context.WithValue(context.Background(), "opt_in_kafka_next_gen_balancer_beta", true)))
 			}
-			if sc.Mode == "commits" {
+			if sc.Mode == "commits" && !sc.Auto {
 				opts = append(opts, kgo.DisableAutoCommit())
+			}
+			if sc.Auto {
+				// a retry that waits a second leaves room for the application's commit; later options win
+				opts = append(opts, kgo.AutoCommitInterval(500*time.Millisecond), kgo.RetryBackoffFn(func(int) time.Duration { return time.Second }))
 			}
 			cl, err := kgo.NewClient(opts...)
 			if err != nil {
